@@ -762,7 +762,7 @@ Definition update (t : term) (it : titem) : tres term :=
 (* the goroutine's select took one event off the channel *)
 Definition drain (t : term) : term := if 0 <? t_ev t then set_ev t (t_ev t - 1) else t.
 
-(* resize: re-print the old primary screen up to the cursor row *)
+(* resize: re-print the old primary screen up to the cursor row; the pen is saved and restored *)
 Fixpoint reprint_cells (cells : list tcell) (t : term) (wrapped : bool) : tres (term * bool) :=
   match cells with
   | [] => TOk (t, wrapped)
@@ -792,7 +792,10 @@ Definition resize (t : term) (w h : Z) : tres term :=
   let t := set_cursor t 0 0 in
   let t := set_last t false in
   let n0 := match old with [] => 0 | l :: _ => zlen l end in
+  (* re-printing goes through the pen: the child's pen is kept *)
+  let pen0 := t_pen t in
   t <- reprint_rows n0 old 0 last t ;;
+  let t := set_pen t pen0 in
   TOk (set_onalt t (m_smcup (t_md t))).
 
 (* Draw on a window of the terminal's own size: the SetCell calls (col, row, cell) *)
